@@ -1,11 +1,17 @@
 #!/usr/bin/env python3
-"""Applies each seeded change in /verif/seeded/<id>/patch.diff to /repo, runs the quick check(s) of the property it breaks,
-restores /repo, and prints which check reported what.  Usage: seeded_eval.py [id ...] [--budget-s N]"""
-import json, os, subprocess, sys, re, time
+"""Runs the quick check(s) of the property each seeded change in /verif/seeded/<id>/patch.diff breaks, against a tree with
+that change applied, and prints which check reported what.
+Default mode: a scratch worktree of /repo HEAD under /tmp gets the patch and the checks are pointed at it (VERIF_REPO,
+VERIF_BUILD_DIR), so /repo is never touched and other runs are not disturbed; the worktree is removed afterwards.
+--in-repo: apply the patch to /repo itself (git -C /repo apply), run, and undo it straight afterwards (git -C /repo checkout -- .).
+Usage: seeded_eval.py [id ...] [--budget-s N] [--in-repo]"""
+import json, os, subprocess, sys, re, time, shutil
 ROOT = '/verif'
-ids = [a for a in sys.argv[1:] if not a.startswith('--') and not a.isdigit()]
+args = sys.argv[1:]
+in_repo = '--in-repo' in args
 budget = '30'
-if '--budget-s' in sys.argv: budget = sys.argv[sys.argv.index('--budget-s') + 1]
+if '--budget-s' in args: budget = args[args.index('--budget-s') + 1]
+ids = [a for a in args if not a.startswith('--') and not a.isdigit()]
 if not ids: ids = sorted(os.listdir(os.path.join(ROOT, 'seeded')))
 out = {}
 for sid in ids:
@@ -13,20 +19,31 @@ for sid in ids:
     meta = json.load(open(os.path.join(d, 'meta.json'))) if os.path.exists(os.path.join(d, 'meta.json')) else {}
     prop = meta.get('property', re.sub(r'[ab]$', '', sid))
     checks = meta.get('checks', [prop])
-    assert subprocess.run(['git', '-C', '/repo', 'status', '--porcelain', '--untracked-files=no'], stdout=subprocess.PIPE, text=True).stdout.strip() == '', '/repo not clean'
-    r = subprocess.run(['git', '-C', '/repo', 'apply', os.path.join(d, 'patch.diff')])
-    if r.returncode != 0:
-        out[sid] = 'patch does not apply'; print(sid, out[sid]); continue
+    env = dict(os.environ); env['VERIF_NO_REPLAY_WRITE'] = '1'; env['VERIF_EVIDENCE_DIR'] = os.path.join(ROOT, 'build', 'evidence_scratch')
+    wt = None
+    if in_repo:
+        assert subprocess.run(['git', '-C', '/repo', 'status', '--porcelain', '--untracked-files=no'], stdout=subprocess.PIPE, text=True).stdout.strip() == '', '/repo not clean'
+        tree = '/repo'
+    else:
+        wt = f'/tmp/evalwt_{sid}'; bd = f'/tmp/evalbuild_{sid}'
+        subprocess.run(['git', '-C', '/repo', 'worktree', 'remove', '--force', wt], stderr=subprocess.DEVNULL)
+        assert subprocess.run(['git', '-C', '/repo', 'worktree', 'add', '-q', wt, 'HEAD']).returncode == 0
+        tree = wt; env['VERIF_REPO'] = wt; env['VERIF_BUILD_DIR'] = bd
+    r = subprocess.run(['git', '-C', tree, 'apply', os.path.join(d, 'patch.diff')])
     res = {}
     try:
+        if r.returncode != 0:
+            out[sid] = 'patch does not apply'; print(sid, out[sid], flush=True); continue
         for c in checks:
             t0 = time.time()
-            env = dict(os.environ); env['VERIF_NO_REPLAY_WRITE'] = '1'; env['VERIF_EVIDENCE_DIR'] = os.path.join(ROOT, 'build', 'evidence_scratch')
             p = subprocess.run(['python3', os.path.join(ROOT, 'simctl.py'), 'check', c, '--tier', 'quick', '--budget-s', budget], stdout=subprocess.PIPE, stderr=subprocess.STDOUT, text=True, cwd=ROOT, env=env)
             classes = re.findall(r'class=(\S+)', p.stdout)
             res[c] = {'exit': p.returncode, 'classes': sorted(set(classes)), 'wall_s': round(time.time() - t0, 1), 'harness_errors': len(re.findall(r'HARNESS-ERROR', p.stdout))}
     finally:
-        subprocess.run(['git', '-C', '/repo', 'checkout', '--', '.'])
+        if in_repo:
+            subprocess.run(['git', '-C', '/repo', 'checkout', '--', '.'])
+        else:
+            subprocess.run(['git', '-C', '/repo', 'worktree', 'remove', '--force', wt]); shutil.rmtree(bd, ignore_errors=True)
     out[sid] = res
-    print(sid, json.dumps(res))
+    print(sid, json.dumps(res), flush=True)
 json.dump(out, open(os.path.join(ROOT, 'build', 'seeded_eval_last.json'), 'w'), indent=1)
